@@ -40,14 +40,21 @@ def write(psyir):
 
 
 def items(psyir):
-    """Multiset of the things the property says are neither lost nor duplicated: statements (by
-    class), code blocks (by their text), comments (text), directives (text of the begin string),
-    plus declarations (symbol names of every scope are compared separately by decl_items)."""
-    from psyclone.psyir.nodes import (Statement, CodeBlock, Directive, Routine, Container)
+    """Multiset of the things the property says are neither lost nor duplicated: statements (nodes
+    in statement position, by class), code blocks (by their text), comments (text), directives
+    (begin string), routines and containers (by name)."""
+    from psyclone.psyir.nodes import (Statement, CodeBlock, Directive, Routine, Container, Schedule,
+                                      FileContainer)
     from psyclone.psyir.nodes.commentable_mixin import CommentableMixin
     c = collections.Counter()
     for n in psyir.walk((Statement, CodeBlock, Routine, Container)):
-        if isinstance(n, CodeBlock):
+        if isinstance(n, FileContainer):
+            continue
+        if isinstance(n, (Routine, Container)):
+            c["%s:%s" % (type(n).__name__, n.name.lower())] += 1
+        elif not isinstance(n.parent, (Schedule, Container)):
+            continue            # expression-level node (e.g. an IntrinsicCall inside an expression)
+        elif isinstance(n, CodeBlock):
             c["CodeBlock:" + "|".join(re.sub(r"\s+", " ", str(a)).strip().lower() for a in n.get_ast_nodes)] += 1
         elif isinstance(n, Directive):
             try:
@@ -55,8 +62,6 @@ def items(psyir):
             except Exception:      # pylint: disable=broad-except
                 txt = type(n).__name__
             c["Directive:" + txt] += 1
-        elif isinstance(n, (Routine, Container)):
-            c["%s:%s" % (type(n).__name__, n.name.lower())] += 1
         else:
             c["Stmt:" + type(n).__name__] += 1
         if isinstance(n, CommentableMixin):
@@ -104,7 +109,7 @@ def exc_code(e):
     return "%s:%s" % (type(e).__name__, msg[:70])
 
 
-def roundtrip(src=None, path=None, limit=None):
+def roundtrip(src=None, path=None, limit=None, tree=None, fold_case=False):
     """Returns a dict: status in {refused, write1-error, reread-error, write2-error, unstable,
     items-changed, stable, timeout}, plus w1/w2/first diff/items diff as applicable."""
     res = {"status": None}
@@ -113,7 +118,7 @@ def roundtrip(src=None, path=None, limit=None):
         signal.alarm(limit)
     try:
         try:
-            p1 = read_file(path) if path is not None else read_text(src)
+            p1 = tree if tree is not None else (read_file(path) if path is not None else read_text(src))
         except Timeout:
             raise
         except BaseException as e:      # pylint: disable=broad-except
@@ -150,13 +155,19 @@ def roundtrip(src=None, path=None, limit=None):
             return res
         res["w2"] = w2
         it2, d2 = items(p2), decl_items(p2)
+        if fold_case:
+            # API-built trees may hold mixed-case names, which the reader lower-cases (Fortran is
+            # case-insensitive): compare up to case
+            w1, w2 = w1.lower(), w2.lower()
+            it1 = collections.Counter({k.lower(): n for k, n in it1.items()})
+            it2 = collections.Counter({k.lower(): n for k, n in it2.items()})
         lost, added = counter_diff(it1, it2)
         dlost, dadded = counter_diff(d1, d2)
         res["n_items"] = sum(it1.values())
         res["kinds"] = sorted({k.split(":")[0] for k in it1})
         if w1 != w2:
             res.update(status="unstable", diff=first_diff(w1, w2), lost=lost, added=added,
-                       dlost=dlost, dadded=dadded)
+                       dlost=dlost, dadded=dadded, reason=classify(w1, w2))
         elif lost or added:
             res.update(status="items-changed", lost=lost, added=added)
         else:
@@ -170,6 +181,57 @@ def roundtrip(src=None, path=None, limit=None):
     finally:
         if limit:
             signal.alarm(0)
+
+
+ACCESS_RE = re.compile(r"^(public|private)\s*::\s*(.*)$")
+DECL_NAME_RE = re.compile(r"::\s*([A-Za-z_]\w*)")
+IDENT_RE = re.compile(r"[A-Za-z_]\w*")
+
+
+def classify(w1, w2):
+    """Reason code of an instability w1 != w2 (site/reason).  Computed from the two texts only."""
+    l1 = [x.strip() for x in w1.split("\n")]
+    l2 = [x.strip() for x in w2.split("\n")]
+    c1, c2 = collections.Counter(l1), collections.Counter(l2)
+    only1, only2 = list((c1 - c2).elements()), list((c2 - c1).elements())
+    if not only1 and not only2:
+        # pure re-ordering of lines
+        moved = [a for a, b in zip(l1, l2) if a != b]
+        if all("::" in m for m in moved):
+            # is there, in w1, a parameter declaration that mentions a name declared on a later line?
+            declared_at = {}
+            for i, ln in enumerate(l1):
+                m = DECL_NAME_RE.search(ln)
+                if m and not ACCESS_RE.match(ln):
+                    declared_at.setdefault(m.group(1).lower(), i)
+            for i, ln in enumerate(l1):
+                if "::" in ln and re.search(r"\bparameter\b", ln.split("::")[0], re.I):
+                    rhs = ln.split("::", 1)[1]
+                    own = DECL_NAME_RE.search(ln).group(1).lower()
+                    for tok in IDENT_RE.findall(rhs):
+                        t = tok.lower()
+                        if t != own and declared_at.get(t, -1) > i:
+                            return "gen_decls/constant-mentions-later-variable"
+            return "gen_decls/declarations-reordered"
+        return "writer/lines-reordered"
+    a1 = [ACCESS_RE.match(x) for x in only1]
+    a2 = [ACCESS_RE.match(x) for x in only2]
+    if only1 and only2 and all(a1) and all(a2):
+        def names(ms):
+            return sorted((m.group(1), tuple(sorted(n.strip().lower() for n in m.group(2).split(",")))) for m in ms)
+        if names(a1) == names(a2):
+            return "gen_access_stmts/name-order-follows-table-order"
+        return "gen_access_stmts/names-changed"
+    if only1 and not only2 and all(x.startswith("!") for x in only1):
+        if any(x.lower().startswith("!$") for x in only1):
+            return "FortranReader/directive-lines-dropped"
+        return "FortranReader/comment-lines-dropped"
+    if only2 and not only1 and all(x.startswith("!") for x in only2):
+        return "writer/comment-lines-duplicated"
+    kinds = set()
+    for x in only1 + only2:
+        kinds.add("comment" if x.startswith("!") else "decl" if "::" in x else "use" if x.lower().startswith("use ") else "stmt")
+    return "other/" + "+".join(sorted(kinds))
 
 
 def corpus_files(repo):
@@ -195,9 +257,8 @@ def worker_main(argv):
         except Exception as e:      # pylint: disable=broad-except
             r = {"status": "harness-error", "error": exc_code(e)}
         r["file"] = f
-        if r["status"] == "stable":
-            r.pop("w1", None)
-            r.pop("w2", None)
+        r.pop("w1", None)
+        r.pop("w2", None)
         out.append(r)
     with open(outp, "w") as fh:
         json.dump(out, fh)
